@@ -51,9 +51,10 @@ PROPS = {
         "text": "no model read path reaches a panic outcome (proved for all inputs); hostile/mutated/truncated streams through the real readers under catch_unwind",
     },
     "C09": {
-        "lean": ["PnaVerif.Props.Consts", "PnaVerif.Props.C09"],
-        "families": ["codec"],
-        "ops": {"codec": ["name.sanitize", "fhed.dec", "fhed.reenc", "ref.normalize", "utf8"]},
+        "lean": ["PnaVerif.Props.Consts", "PnaVerif.Props.C09", "PnaVerif.Props.C09Fs"],
+        "families": ["codec", "extract-fs"],
+        "cli": True,
+        "ops": {"codec": ["name.sanitize", "fhed.dec", "fhed.reenc", "ref.normalize", "utf8"], "extract-fs": ["extract"]},
         "trusted": COMMON_TRUST + ["std::path::Path::components (unix) re-modelled and cross-checked by op name.sanitize"],
         "text": "part 1: sanitiser output is always a safe relative path (proved); every constructor and the FHED parser compared with the model",
     },
